@@ -292,29 +292,75 @@ def rule_j5(ctx):
     else:
         res.bad(Finding("J5", MERGER, "compare-exchange operands", "the merger must compare row [i] with row [i + stride] in this order; found %s" % kinds, tt["sp"]))
     # results: .0 (min) -> near, .1 (max) -> far;  swapped exactly when !ascending
-    placed = {}
-    for (b, st, kind, ik) in writes:
-        for (r, p) in body.trace_operand(st["rv"]["op"]) if st["rv"]["k"] == "use" else ():
-            if r[0] == "call" and r[1] == bt and p:
-                placed[kind] = p[0]
-    if placed == {"near": "0", "far": "1"}:
-        res.ok({"clause": "N3", "verdict": "min -> [i], max -> [i + stride]"})
-    else:
-        res.bad(Finding("J5", MERGER, "min / max placement", "the smaller row must be stored at [i] and the larger at [i + stride] (before the direction swap); found %s" % placed, tt["sp"]))
     swaps = [(b, t) for b, t in body.calls() if mir.callee(t) == "std::mem::swap"]
-    sw_ok = False
-    for b, t in swaps:
-        # guarded by ascending == false
-        for x in range(body.n):
+
+    def placed_under(ascending):
+        """which component of the compare-exchange result is stored at [i] / [i + stride] on the paths on which `ascending` has the
+        given value (switches on the parameter pruned; a value local assigned in both branches contributes the pruned branch only)"""
+        def succ(x):
             tx = body.term(x)
             if tx and tx["k"] == "switch" and tx["discr"]["k"] in ("copy", "move") and any(r == ("arg", 3) and not p for (r, p) in body.trace_operand(tx["discr"])):
                 zero_t = [tg for v, tg in tx["targets"] if v == 0]
-                if zero_t and C02._dominated_by_edges(body, {(x, zero_t[0])}, b) and zero_t[0] != tx.get("otherwise"):
-                    sw_ok = True
-    if sw_ok:
-        res.ok({"clause": "N4", "verdict": "min and max are swapped exactly on the descending edge"})
+                neg = any(r[0] == "rv" and r[1] == "unop" for (r, p) in body.trace(tx["discr"]["place"], through={}))
+                take_zero = (not ascending) != neg
+                return zero_t[:1] if take_zero else [y for y in body.succs(x) if y not in zero_t]
+            return body.succs(x)
+        region = set(body.reachable([0], succ=succ))
+        out = {}
+        for (wb, st, kind, ik) in writes:
+            if wb not in region or st["rv"]["k"] != "use":
+                continue
+            comps = set()
+            work = [(st["rv"]["op"], ())]
+            seen = set()
+            while work:
+                o, path = work.pop()
+                if o["k"] not in ("copy", "move"):
+                    continue
+                path = tuple(e["name"] for e in o["place"]["p"] if e["k"] == "field") + path
+                key = (o["place"]["l"], path)
+                if key in seen or len(seen) > 200:
+                    continue
+                seen.add(key)
+                # definitions of the local inside the pruned region only (a local assigned in both branches of `if ascending`)
+                for d in body.defs().get(o["place"]["l"], []):
+                    if d[1] not in region:
+                        continue
+                    if d[0] == "call" and d[1] == bt and path:
+                        comps.add(path[0])
+                    elif d[0] == "assign" and d[3]["rv"]["k"] == "use":
+                        work.append((d[3]["rv"]["op"], path))
+                    elif d[0] == "assign" and d[3]["rv"]["k"] == "aggregate" and path and path[0].isdigit() and int(path[0]) < len(d[3]["rv"]["ops"]):
+                        work.append((d[3]["rv"]["ops"][int(path[0])], path[1:]))
+            out[kind] = comps
+        return out
+    up, down = placed_under(True), placed_under(False)
+    if not swaps and up == {"near": {"0"}, "far": {"1"}} and down == {"near": {"1"}, "far": {"0"}}:
+        res.ok({"clause": "N3", "verdict": "ascending: min -> [i], max -> [i + stride]"})
+        res.ok({"clause": "N4", "verdict": "descending: max -> [i], min -> [i + stride] (selected by `ascending`, no swap call)"})
     else:
-        res.bad(Finding("J5", MERGER, "direction swap", "min and max are not swapped on (exactly) the `!ascending` edge", tt["sp"]))
+        placed = {}
+        for (b, st, kind, ik) in writes:
+            for (r, p) in body.trace_operand(st["rv"]["op"]) if st["rv"]["k"] == "use" else ():
+                if r[0] == "call" and r[1] == bt and p:
+                    placed[kind] = p[0]
+        if placed == {"near": "0", "far": "1"}:
+            res.ok({"clause": "N3", "verdict": "min -> [i], max -> [i + stride]"})
+        else:
+            res.bad(Finding("J5", MERGER, "min / max placement", "the smaller row must be stored at [i] and the larger at [i + stride] (before the direction swap); found %s" % placed, tt["sp"]))
+        sw_ok = False
+        for b, t in swaps:
+            # guarded by ascending == false
+            for x in range(body.n):
+                tx = body.term(x)
+                if tx and tx["k"] == "switch" and tx["discr"]["k"] in ("copy", "move") and any(r == ("arg", 3) and not p for (r, p) in body.trace_operand(tx["discr"])):
+                    zero_t = [tg for v, tg in tx["targets"] if v == 0]
+                    if zero_t and C02._dominated_by_edges(body, {(x, zero_t[0])}, b) and zero_t[0] != tx.get("otherwise"):
+                        sw_ok = True
+        if sw_ok:
+            res.ok({"clause": "N4", "verdict": "min and max are swapped exactly on the descending edge"})
+        else:
+            res.bad(Finding("J5", MERGER, "direction swap", "min and max are not swapped on (exactly) the `!ascending` edge", tt["sp"]))
     # recursion: both halves, same direction
     recs = [(b, t) for b, t in body.calls() if mir.callee(t) == MERGER]
     halves = set()
@@ -457,6 +503,11 @@ def _j5_sorter2_adaptor(ctx, res, b2, gt):
     else:
         res.bad(Finding("J5", SORTER2, "2-sorter results", "the first returned row must collect the first results of the conditional swap, the second the second", b2.fn["sp"]))
     return res
+
+
+def json_key(x):
+    import json as _j
+    return _j.dumps(x, sort_keys=True)
 
 
 def blk_index(body, b, st):
